@@ -1,7 +1,7 @@
 (* One entry point for the extracted driver and for cases.v: (tag arg) -> result. *)
 From Coq Require Import List NArith.
 Import ListNotations.
-Require Import Wire W_C18 W_C17 W_C15 W_C14 W_C10 W_C06.
+Require Import Wire W_C18 W_C17 W_C15 W_C14 W_C10 W_C06 W_C20.
 Local Open Scope N_scope.
 
 Definition dispatch (v : val) : val :=
@@ -14,5 +14,6 @@ Definition dispatch (v : val) : val :=
   | VL [VN 1000; a] => run_c10_encode a
   | VL [VN 1001; a] => run_c10_decode a
   | VL [VN 600; a] => run_c06 a
+  | VL [VN 2000; a] => run_c20 a
   | _ => bad_input
   end.
